@@ -272,9 +272,26 @@ pub struct Run {
     max_violation_files: usize,
 }
 
+#[cfg(all(target_os = "linux", target_env = "gnu"))]
+fn tune_allocator() {
+    // glibc returns freed arena tops to the kernel with madvise(); with 16 worker threads
+    // freeing 64 KiB buffers millions of times that call dominates the run (17 ms each in
+    // this VM). Keep freed memory in the arenas instead.
+    extern "C" {
+        fn mallopt(param: i32, value: i32) -> i32;
+    }
+    const M_TRIM_THRESHOLD: i32 = -1;
+    unsafe {
+        mallopt(M_TRIM_THRESHOLD, 1 << 30);
+    }
+}
+#[cfg(not(all(target_os = "linux", target_env = "gnu")))]
+fn tune_allocator() {}
+
 impl Run {
     pub fn new(id: &str, level: &str) -> Arc<Run> {
         install_panic_hook();
+        tune_allocator();
         let tier = tier_from_args();
         let run = Arc::new(Run {
             id: id.to_string(),
